@@ -25,8 +25,13 @@ OID = {
     'p256': bytes.fromhex('2A8648CE3D030107'),
     'p384': bytes.fromhex('2B81040022'),
     'p521': bytes.fromhex('2B81040023'),
+    'k256': bytes.fromhex('2B8104000A'),
+    'bp256': bytes.fromhex('2B2403030208010107'),
+    'bp384': bytes.fromhex('2B240303020801010B'),
+    'bp512': bytes.fromhex('2B240303020801010D'),
 }
-CURVE = {'p256': ec.SECP256R1, 'p384': ec.SECP384R1, 'p521': ec.SECP521R1}
+CURVE = {'p256': ec.SECP256R1, 'p384': ec.SECP384R1, 'p521': ec.SECP521R1, 'k256': ec.SECP256K1,
+         'bp256': ec.BrainpoolP256R1, 'bp384': ec.BrainpoolP384R1, 'bp512': ec.BrainpoolP512R1}
 
 
 # ------------------------------------------------------------------ lengths, headers, MPIs
@@ -214,7 +219,10 @@ def verify_digest(alg, pub_material, digest, hname, sigints):
                 pub = ed25519.Ed25519PublicKey.from_public_bytes(raw[1:])
                 pub.verify(sigints[0].to_bytes(32, 'big') + sigints[1].to_bytes(32, 'big'), digest)
                 return True
-            kind = next(k for k, v in OID.items() if v == oid)
+            kind = next((k for k, v in OID.items() if v == oid and k in CURVE), None)
+            if kind is None:
+                from .tlc import MachineryError
+                raise MachineryError('independent verifier does not know curve OID %s' % oid.hex())
             curve = CURVE[kind]()
             sz = (curve.key_size + 7) // 8
             raw = pt.to_bytes(2 * sz + 1, 'big')
